@@ -257,7 +257,7 @@ theorem LNZ.of_nonzero {l : List BoF} (h : ∀ b, BoF.bound b ∈ l → b.Nonzer
 theorem LNZ.tail {x : BoF} {t : List BoF} (h : LNZ (x :: t)) : LNZ t :=
   fun b hb => h b (List.mem_cons_of_mem _ hb)
 
-theorem mem_boundsOnly {l : List BoF} {b : UserBounds} : b ∈ boundsOnly l ↔ BoF.bound b ∈ l := by
+theorem mem_boundsOnly_t {l : List BoF} {b : UserBounds} : b ∈ boundsOnly l ↔ BoF.bound b ∈ l := by
   induction l with
   | nil => simp [boundsOnly]
   | cons x t ih =>
@@ -408,7 +408,7 @@ theorem boundsOnly_flatMap_unpack_ne_nil (l : List BoF) (n : Nat) (hl : LNZ l)
   cases hb : boundsOnly l with
   | nil => exact absurd hb h
   | cons b _ =>
-    have hmem : BoF.bound b ∈ l := mem_boundsOnly.1 (by rw [hb]; simp)
+    have hmem : BoF.bound b ∈ l := mem_boundsOnly_t.1 (by rw [hb]; simp)
     have hne := unpack_ne_nil b n (hl b hmem)
     cases hu : b.unpack n with
     | nil => exact absurd hu hne
@@ -417,7 +417,7 @@ theorem boundsOnly_flatMap_unpack_ne_nil (l : List BoF) (n : Nat) (hl : LNZ l)
         simp only [List.mem_flatMap]
         exact ⟨.bound b, hmem, by simp [unpackBof, hu]⟩
       intro hnil
-      have := mem_boundsOnly.2 this
+      have := mem_boundsOnly_t.2 this
       rw [hnil] at this
       simp at this
 
@@ -439,7 +439,7 @@ theorem boundsOnly_ne_nil_of_any_needsUnpack (l : List BoF) (h : l.any needsUnpa
   | filler f => simp [needsUnpack] at hn
   | bound b =>
     intro hnil
-    have := mem_boundsOnly.2 hx
+    have := mem_boundsOnly_t.2 hx
     rw [hnil] at this
     simp at this
 
@@ -916,7 +916,7 @@ theorem isForwardOnly_noNeg (l : List BoF) (h : isForwardOnly l = true) : NoNeg 
   have hn := h.2
   unfold hasNegativeIndices at hn
   intro b hb
-  have := List.any_eq_false.1 hn b (mem_boundsOnly.2 hb)
+  have := List.any_eq_false.1 hn b (mem_boundsOnly_t.2 hb)
   simpa using this
 
 theorem forwardBoundsOf_noNeg (l : UserBoundsList) (bs : List BoF)
